@@ -140,6 +140,12 @@ func main() {
 		"a-all-excluded-under-wkp"} {
 		r.Require("nosynth_sole_"+reason, 10)
 	}
+	r.Require("nosynth_sole_dnssec-failure_ede_not_first", 20)
+	r.Require("nosynth_sole_a-all-excluded-under-defaulted-wkp", 10)
+	r.Require("synth_pairs_skipped_excluded_under_defaulted_wkp", 10)
+	r.Require("synth_replies_defaulted_wkp", 50)
+	r.Require("filtered_all_stripped_no_synth_upstream_ad", 20)
+	r.Require("filtered_all_stripped_no_synth_upstream_ad/a-all-excluded-under-wkp", 3)
 	r.Require("ptr_passthrough_malformed_name", 20)
 	r.Require("ptr_passthrough_outside_prefixes", 20)
 
